@@ -12,7 +12,8 @@ THEOREMS = ['C05_bounded_native_is_spec', 'C05_integer_native_is_spec', 'C05_uns
             'C05_unicode_checks_are_spec', 'C05_unicode_none_is_spec', 'C05_text_paths_are_spec', 'C05_text_verdicts_agree',
             'C05_text_null_verdicts_agree', 'C05_text_paths_total', 'C05_datetime_native_is_spec', 'C05_datetime_naive_rule',
             'C05_datetime_verdict_of_instant', 'C05_datetime_lex_instant', 'C05_date_native_is_spec', 'C05_time_native_is_spec',
-            'C05_datetime_leaf_spec', 'C05_date_leaf_spec', 'C05_time_leaf_spec', 'C05_range_paths_agree']
+            'C05_datetime_leaf_spec', 'C05_date_leaf_spec', 'C05_time_leaf_spec', 'C05_range_paths_agree',
+            'C05_array_occurrence_is_spec', 'C05_flat_array_is_spec', 'C05_array_verdicts_agree']
 
 INT_CLASSES = {'Integer8': (True, 8), 'Integer16': (True, 16), 'Integer32': (True, 32), 'Integer64': (True, 64),
                'UnsignedInteger8': (False, 8), 'UnsignedInteger16': (False, 16), 'UnsignedInteger32': (False, 32),
@@ -1298,17 +1299,32 @@ def family_array_occurs(check, tier):
              ('Array(Integer(min_occurs=1, max_occurs=2), min_occurs=1)', 1, 1, 2),
              ('Array(Integer(max_occurs=2))', 0, 0, 2)]
     hi = 5 if tier == 'quick' else 8
+    corr = {'xml_array': [], 'hier_array': [], 'flat_array': []}
     for aexpr, wmin, mmin, mmax in specs:
         h = Harness(mk_type('Integer'), array=mk_type(aexpr))
+        gd = '{| ad_wmin := %s; ad_wmax := Fin 1; ad_mmin := %s; ad_mmax := %s |}' % (gz(wmin), gz(mmin), 'PosInf' if mmax is None else '(Fin %s)' % gz(mmax))
+        def tie(proto, pos, n, got):
+            # the Coq model of the three enforcement points against what the implementation just did
+            if got is None or got.startswith('other'):
+                return
+            name = {'xml': 'xml_array', 'soap11': 'xml_array', 'json': 'hier_array', 'yaml': 'hier_array', 'msgpack': 'hier_array', 'http': 'flat_array'}[proto]
+            req = gz(n or 0) if name == 'flat_array' else gopt(n, gz)
+            corr[name].append(('(%s, %s, %s)' % (gd, req, gbool(got == 'accept')), '%s %s %s n=%r -> %s' % (aexpr, proto, pos, n, got)))
         for proto in PROTOS:
             for pos in ('arr', 'narr'):
-                expect(check, h, 'array-occurs', aexpr, 'Integer', 'array-absent', proto, pos, ('absent',), wmin == 0, None,
-                       extra={'array_expr': aexpr})
+                got = expect(check, h, 'array-occurs', aexpr, 'Integer', 'array-absent', proto, pos, ('absent',), wmin == 0, None,
+                             extra={'array_expr': aexpr})
+                tie(proto, pos, None, got)
                 for n in range(0, hi):
                     want = mmin <= n and (mmax is None or n <= mmax)
                     shape = 'items-under-min' if n < mmin else 'items-over-max' if (mmax is not None and n > mmax) else 'items-conforming'
-                    expect(check, h, 'array-occurs', aexpr, 'Integer', shape, proto, pos, ('items', list(range(n))), want,
-                           list(range(n)), extra={'array_expr': aexpr})
+                    got = expect(check, h, 'array-occurs', aexpr, 'Integer', shape, proto, pos, ('items', list(range(n))), want,
+                                 list(range(n)), extra={'array_expr': aexpr})
+                    tie(proto, pos, n, got)
+    imports = 'From SpyneV Require Import Base.Prelude Base.Ext C05.Valid C05.ArrayModel.'
+    for name, rt in (('xml_array', 'option Z'), ('hier_array', 'option Z'), ('flat_array', 'Z')):
+        lib.correspond(check, name, imports, 'arr_decl * %s * bool' % rt,
+                       '(fun c => match c with (d, r, b) => Bool.eqb (%s d r) b end)' % name, corr[name])
     check.sample({'family': 'array vs item occurrence', 'arrays': [s[0] for s in specs], 'items': [0, hi - 1]})
 
 
